@@ -442,6 +442,7 @@ where
     #[must_use]
     pub fn rank_prefetch(&self, symbol: T, i: usize) -> Option<usize> {
         if i > self.n
+            || symbol.to_usize().is_none() // wider than the code table can index: not in the alphabet
             || symbol.as_() >= self.codes_encode.len()
             || self.codes_encode[symbol.as_() as usize].len == 0
         {
@@ -708,6 +709,7 @@ where
     #[inline(always)]
     fn rank(&self, symbol: Self::Item, i: usize) -> Option<usize> {
         if i > self.n
+            || symbol.to_usize().is_none() // wider than the code table can index: not in the alphabet
             || symbol.as_() >= self.codes_encode.len()
             || self.codes_encode[symbol.as_()].len == 0
         {
@@ -799,7 +801,8 @@ where
     #[must_use]
     #[inline(always)]
     fn select(&self, symbol: Self::Item, i: usize) -> Option<usize> {
-        if symbol.as_() >= self.codes_encode.len()
+        if symbol.to_usize().is_none() // wider than the code table can index: not in the alphabet
+            || symbol.as_() >= self.codes_encode.len()
             || self.codes_encode[symbol.as_() as usize].len == 0
         {
             return None;
